@@ -8,7 +8,7 @@ import gen_scripts as G
 
 PROP_FILES = ["Properties/C14.v"]
 RULE = ("every modelled transform of the generated tf table x {command form `tf name args`, inline form name(arg)} x arguments: hex strings of "
-        "lengths 0,1,2,31,32,33,55,56,63,64,65,119,120,252,253,300,1000 (+65535/65536 thorough), integers, strings, opcodes; base58check and "
+        "lengths 0,1,2,31,32,33,55,56,63,64,65,119,120,252,253,300,1000 (+65535/65536 thorough; prefix-compact-size / len also at 254..256, 32767/32768, 65534..65537 in every tier), integers, strings, opcodes; base58check and "
         "bech32/bech32m strings produced by an independent python encoder and every single-character substitution of a sample; add/sub with and "
         "without a group incl. wrap-around values; Jacobi symbols of random 256-bit n for k = secp256k1 p and small odd k; "
         "P2PKH addresses <-> scriptPubKeys; hash opcodes OP_SHA256/RIPEMD160/HASH160/HASH256/SHA1 on the same data (opcode form). "
@@ -67,6 +67,12 @@ def gen(chk):
             tf(name, [a])
             if iname:
                 il("%s(%s)" % (iname, a))
+        if name in ("prefix-compact-size", "len"):
+            # the size classes of the compact-size prefix: 252/253, 2^15, 2^16 boundaries in every tier
+            for n in (254, 255, 256, 32767, 32768, 65534, 65535, 65536, 65537):
+                a = "0x" + rb(n).hex()
+                tf(name, [a])
+                if iname: il("%s(%s)" % (iname, a))
         tf(name, ["0x1234", "0x5678"]); tf(name, ["OP_DUP", "5", "0xabcdef0102"])
     # base58check / bech32 decoding incl. corruptions
     for _ in range(60 if chk.tier == "quick" else 600):
